@@ -73,7 +73,8 @@ CHECKS['C13'] = dict(
           '<base>_NNN with NNN one more than the highest number used for exactly that prefix (0 if none), it was absent, '
           'nothing else changes; a sibling name carries an index for at most one base (prefix-related names such as '
           'A_B_000, A_A_005 are never counted for A); any history of create/delete requests keeps succeeding; '
-          'find_results_groups(d, t) returns a group created for (d2, t2) iff d2 = d and the normalised tool names agree; '
+          'find_results_groups(d, t) returns a group created for (d2, t2) iff d2 = d, the normalised tool names agree and - '
+          'inside the file of the dataset - the group does not record ANOTHER dataset of the same name as its source; '
           'tool/source provenance and recovery of the source dataset. The zero-padded formatter and the digit parser '
           'are proved inverse. Correspondence: random and (thorough) exhaustive short histories on real HDF5 files over a '
           'vocabulary closed under prefix/substring relations.'),
